@@ -232,6 +232,10 @@ var c19templates = []string{
 
 func VerifRun_C19() {
 	ti := verifConcretize(verifRange("template", verifParam("TMIN"), verifParam("TMAX")))
+	// the outline is asked for right after start-up, or after an edit (a didChange re-analyses the file in
+	// real-time mode and later requests are answered from that analysis)
+	edited := verifBool("edited")
+	vpOpenAll = edited
 	file := "/w/a.lua"
 	src := vpInstantiate(c19templates[ti], "n")
 	p, fs := vpProject([]string{file}, [][]byte{src})
@@ -276,6 +280,23 @@ func VerifRun_C19() {
 		}
 		if d.deep {
 			class = "C19-nested-function-outline"
+		}
+		if edited {
+			// a member written before the statement that declares its (global) table
+			owner := d.full
+			for k := 0; k < len(owner); k++ {
+				if owner[k] == '.' || owner[k] == ':' {
+					owner = owner[:k]
+					break
+				}
+			}
+			if owner != d.full {
+				for _, d2 := range decls {
+					if d2.full == owner && (d2.loc.StartLine > d.loc.StartLine || (d2.loc.StartLine == d.loc.StartLine && d2.loc.StartColumn > d.loc.StartColumn)) {
+						class = "C19-member-before-table-after-edit"
+					}
+				}
+			}
 		}
 		later := false
 		for _, d2 := range decls {
